@@ -19,7 +19,13 @@ ASSUMPTIONS = [
 TRUSTED = ["pandas positional access (.values), np.unique, np.mean/std/percentile"]
 
 CORPUS = ["y ~ f + x", "y ~ scale(x) + bs(z, df=4)", "y ~ center(x):f + (x | g)", "yc ~ co + cu",
-          "y ~ poly(x, 2) + (1 | g:h)", "p(s, n) ~ C(k) + z", "y ~ T(g, ref='w'):x"]
+          "y ~ poly(x, 2) + (1 | g:h)", "p(s, n) ~ C(k) + z", "y ~ T(g, ref='w'):x",
+          # formulas that take no column from the frame (the frame still has columns with NaN)
+          "1", "I(resp) ~ 1", "I(resp) ~ 0 + offset(2)", "y ~ 1",
+          # spline with inner knots from the calling environment, boundary knots from the data
+          "y ~ bs(z, knots=kn)", "y ~ bs(z, knots=kn):f + (1 | g)", "y ~ bs(z, knots=kn, degree=2) + x"]
+# names visible to the formulas of this check only (`resp` is added per frame, row-aligned)
+NAMES = dict(designs.NAMES, kn=[-0.5, 0.5])
 
 
 def params_of(dm):
@@ -64,8 +70,9 @@ def params_of(dm):
     return [r + [[0, 1]] * (width - len(r)) for r in out]
 
 
-def snapshot(formula, df):
-    obs, _ = designs.observe(formula, df, designs.NAMES)
+def snapshot(formula, df, resp=None):
+    names = NAMES if resp is None else dict(NAMES, resp=np.asarray(resp, dtype=float))
+    obs, _ = designs.observe(formula, df, names)
     if "err" in obs:
         return obs
     dm = obs["_dm"]
@@ -103,6 +110,7 @@ def variants(r, df):
     extra.insert(0, "junk0", ["x"] * n)
     out.append(("same", extra, None))
     out.append(("same", df.drop(columns=["unused"]), None))
+    out.append(("same", df.drop(columns=["unused_nan"]), None))             # unused column with NaN
     return out
 
 
@@ -125,7 +133,8 @@ def explore(tier, seed, res=None, replay=None):
     res = res or Result()
     res.rule = ("generated designs x (3 row permutations, non-unique string index, unsorted float "
                 "index, reversed column order, 3 extra unused columns incl. an all-NaN one, an unused "
-                "column removed); non-trivial = a pair whose design has a categorical or stateful "
+                "column removed, the unused column with NaN removed); formulas include ones naming no "
+                "frame column and splines with knots from the environment; non-trivial = a pair whose design has a categorical or stateful "
                 "atom; distinct by (formula, variant)")
     n_cases = 300 if tier == "quick" else 10000
     cases = []
@@ -141,14 +150,18 @@ def explore(tier, seed, res=None, replay=None):
         r = rng_for(seed, "c08", path)
         df = designs.gen_frame(r)
         formula = f or designs.gen_formula(r, extra=True)
+        if f is None and r.random() < 0.12:
+            formula += r.choice([" + bs(z, knots=kn)", " + bs(z, knots=kn, degree=2):f"])
+        # a row-aligned array in the calling environment: moves with the rows
+        resp = [r.randrange(-9, 10) / 2 for _ in range(len(df))]
         res.evaluations += 1
-        base = snapshot(formula, df)
+        base = snapshot(formula, df, resp)
         if "err" in base:
             res.count("impl_error:" + base["err"])
             continue
         pairs, meta = [], []
         for k, (rule, d2, sigma) in enumerate(variants(r, df)):
-            other = snapshot(formula, d2)
+            other = snapshot(formula, d2, [resp[i] for i in sigma] if sigma else resp)
             if "err" in other:
                 res.failures.append({"case": {"formula": formula, "seed_path": path, "variant": k},
                                      "impl": other, "expected": "same design", "finding": None,
@@ -166,10 +179,10 @@ def explore(tier, seed, res=None, replay=None):
             res.nontrivial.add((formula, path, k))
         # missing values + relabelled indexes
         nbase_df, nvars = nan_variants(r, df)
-        nbase = snapshot(formula, nbase_df)
+        nbase = snapshot(formula, nbase_df, resp)
         if "err" not in nbase:
             for k, (rule, d2, sigma) in enumerate(nvars, start=100):
-                other = snapshot(formula, d2)
+                other = snapshot(formula, d2, resp)
                 if "err" in other:
                     res.failures.append({"case": {"formula": formula, "seed_path": path, "variant": k},
                                          "impl": other, "expected": "same design", "finding": None,
